@@ -12,6 +12,7 @@ import (
 	"fmt"
 	"path/filepath"
 	"reflect"
+	"strings"
 	"sync"
 
 	"verifharness/internal/hx"
@@ -52,6 +53,11 @@ func c10Cases(e *Env) []txCase {
 		return c
 	}
 	out = append(out, mk("none", "", "file", ""), mk("file", "", "none", ""))
+	// the same with an ordinary comment line in front of the directive
+	for _, c := range []txCase{mk("none", "", "file", ""), mk("file", "", "none", "")} {
+		c.Files[1].Lead = true
+		out = append(out, c)
+	}
 	// a first run that starts at a checkpoint file (the older file is skipped); a crash inside the checkpoint
 	// leaves it partially applied (none mode), the re-run resumes it and runs every later file
 	for _, mode := range []string{"none", "file"} {
@@ -68,6 +74,15 @@ func c10Cases(e *Env) []txCase {
 	if e.Thorough() {
 		out = append(out, mk("none", "file", "file"), mk("file", "none", "none"), mk("none", "file", "", "file"))
 	}
+	// statement texts that differ from case to case (the resume compares per-statement checksums): one file of
+	// four statements in none mode, killed after each statement only
+	ns := 30
+	if e.Thorough() {
+		ns = 300
+	}
+	for k := 1; k <= ns; k++ {
+		out = append(out, txCase{Mode: "none", PreJournal: true, Salt: int(e.Seed%1000)*1000 + k, Files: []txFile{{Ok: []bool{true, true, true, true}}}})
+	}
 	return out
 }
 
@@ -81,7 +96,7 @@ func runC10(e *Env) error {
 	}
 	defer pool.Close()
 	cases := c10Cases(e)
-	e.Res.Rule = "cases = directory shape (files x statements) x tx-mode {file, all, none} x journal variant (+ txmode-directive mixes, + a first run starting at a checkpoint file with an older file to skip); per case: one traced run (operation sequence == Lean plan), then the process is SIGKILLed before and after EVERY database operation (statement, revision upsert, BEGIN, COMMIT, pragma, revision-table bootstrap); after each kill: dump == model crash state, monitors no-half-file / revision<=effects; re-run of the same command must succeed; final dump == model and every statement once (file/all) or at most one twice (none); non-trivial = a crash point inside the migration; distinct by (case, point)"
+	e.Res.Rule = "cases = directory shape (files x statements) x tx-mode {file, all, none} x journal variant (+ txmode-directive mixes, + a first run starting at a checkpoint file with an older file to skip, + 30 none-mode files whose statement texts differ from case to case, killed after each statement); per case: one traced run (operation sequence == Lean plan), then the process is SIGKILLed before and after EVERY database operation (statement, revision upsert, BEGIN, COMMIT, pragma, revision-table bootstrap); after each kill: dump == model crash state, monitors no-half-file / revision<=effects; re-run of the same command must succeed; final dump == model and every statement once (file/all) or at most one twice (none); non-trivial = a crash point inside the migration; distinct by (case, point)"
 	var mu sync.Mutex
 	viol := func(kind, sig, what, check string, rep any) {
 		mu.Lock()
@@ -134,6 +149,13 @@ func runC10(e *Env) error {
 		}
 		var pts []point
 		for k := 1; k <= n; k++ {
+			if c.Salt != 0 {
+				// salted cases: killed right after a statement ran, nowhere else
+				if strings.Contains(out.Trace[k-1], "INSERT INTO journal") {
+					pts = append(pts, point{k, true})
+				}
+				continue
+			}
 			pts = append(pts, point{k, false}, point{k, true})
 		}
 		parallel(e.Workers, len(pts), func(pi int) {
